@@ -35,14 +35,23 @@ def echo(params):
     return x
 
 
+SHAPES = {"no-args": lambda: RuntimeError(), "broken-pipe": lambda: BrokenPipeError(32, "Broken pipe"),
+          "conn-refused": lambda: ConnectionRefusedError(), "conn-reset": lambda: ConnectionResetError("reset")}
+
+
+def shape(params):
+    x = params["x"] if isinstance(params, dict) else getattr(params, "x", 0)
+    return SHAPES.get(x, lambda: RuntimeError("scripted failure"))()
+
+
 @server.feature("t/boom")
 def boom(params):
-    raise RuntimeError("scripted failure")
+    raise shape(params)
 
 
 @server.feature("t/aboom")
 async def aboom(params):
-    raise RuntimeError("scripted failure")
+    raise shape(params)
 
 
 try:
